@@ -232,8 +232,8 @@ theorem tail_slots_reserved (H : Bytes → Bytes) (sr : Final → Rcpt) (tmr : R
   · rw [ho]; exact ⟨by simp, by simp⟩
 
 /-- **the committed receipts root is the root of the Merkle calculator fed with the encoded receipts, in
-order, including the trailer** (`script.receipts_root = self.receipts.root()`). That the calculator computes
-the RFC-6962 binary Merkle root is C09's theorem; here it is compared with an independent MTH by the oracle. -/
+order, including the trailer** (`script.receipts_root = self.receipts.root()`). That this value is the RFC-6962
+binary Merkle root is `root_eq_mth_holds` / `root_eq_mth_receipts` in `Props/C28Root.lean`. -/
 theorem root_eq_mth_receipts_partial (H : Bytes → Bytes) (sr : Final → Rcpt) (tmr : Rcpt)
     (hsr : ∀ f, (sr f).kind = .scriptResult) (htmr : tmr.kind = .panic) (evs : List Ev) (hw : ∀ e ∈ evs, e.wf)
     (o : Outcome) (h : runEvents H sr tmr RCtx.empty 0 evs = .ok o) :
@@ -243,7 +243,8 @@ theorem root_eq_mth_receipts_partial (H : Bytes → Bytes) (sr : Final → Rcpt)
   · rw [ho] at h; cases h
     unfold RCtx.root; rw [hsy]
 
-/-- full statement of the root clause (needs C09: `calcRoot ∘ foldl calcPush = MTH`) -/
+/-- full statement of the root clause; proved for `mth := BMT.mth` in `Props/C28Root.lean` (`root_eq_mth_holds`) by composing
+with C09 -/
 def RootEqMthStatement (mth : (Bytes → Bytes) → List Bytes → Bytes) : Prop :=
   ∀ (H : Bytes → Bytes) (sr : Final → Rcpt) (tmr : Rcpt) (evs : List Ev) (o : Outcome),
     (∀ f, (sr f).kind = .scriptResult) → tmr.kind = .panic → (∀ e ∈ evs, e.wf) →
@@ -308,6 +309,29 @@ theorem limits_match_code :
     maxReceipts = Gen.receiptsMax ∧ Gen.receiptsMax = 65535 ∧ Gen.reservedTailSlots = 2 ∧
     Gen.shouldRevertKinds = ["Revert", "Panic"] := by decide
 
+/-! ### reused interpreters: every transaction starts from a clean frame stack and an empty receipts context -/
+
+/-- `init_inner` clears the call-frame stack and the receipts context, whatever the previous transaction left behind
+(an obligation on the generated flags: deleting `self.frames.clear();` or `self.receipts.clear();` from `init_inner`
+breaks this proof) -/
+theorem init_inner_resets (c : Carry) : (initInner c).depth = 0 ∧ (initInner c).rc = RCtx.empty := by
+  constructor <;> simp [initInner, Gen.initClearsFrames, Gen.initClearsReceipts]
+
+/-- a transaction on a reused interpreter runs exactly as on a fresh one — in particular a previous run that ended
+inside a nested call (revert, panic, out of gas: `depthAfter > 0`) does not make the next top-level RET "return from a call" -/
+theorem reused_interpreter_as_fresh (H : Bytes → Bytes) (sr : Final → Rcpt) (tmr : Rcpt) (c : Carry) (evs : List Ev) :
+    (transactOn H sr tmr c evs).1 = runEvents H sr tmr RCtx.empty 0 evs := by
+  obtain ⟨h1, h2⟩ := init_inner_resets c
+  simp only [transactOn, h1, h2]
+
+/-- hence for every sequence of transactions on one `MemoryClient` / `Transactor`, each transaction's outcome is the
+fresh-interpreter outcome, and all theorems above apply to it -/
+theorem sequence_on_reused_client (H : Bytes → Bytes) (sr : Final → Rcpt) (tmr : Rcpt) (c : Carry) (txs : List (List Ev)) :
+    runSeq H sr tmr c txs = txs.map (runEvents H sr tmr RCtx.empty 0) := by
+  induction txs generalizing c with
+  | nil => rfl
+  | cons evs rest ih => simp only [runSeq, List.map_cons, reused_interpreter_as_fresh, ih]
+
 /-! ### non-vacuity -/
 
 def exH : Bytes → Bytes := fun b => [UInt8.ofNat b.length]
@@ -323,6 +347,12 @@ example : kindsOf (runEvents exH exSr exTmr RCtx.empty 0 [.call ⟨.call, [2]⟩
 example : kindsOf (runEvents exH exSr exTmr RCtx.empty 0 [.emit ⟨.log, [1]⟩, .fault ⟨.panic, [7]⟩]) = [.log, .panic, .scriptResult] := by decide
 /-- the boundary: with 65,533 receipts a further program receipt is refused, a Panic receipt is accepted;
 with 65,532 a program receipt is still accepted -/
+-- a first transaction that reverts inside a call leaves a frame behind (`depthAfter = 1`); the next transaction's
+-- top-level RET still ends the script with success
+example : depthAfter exH RCtx.empty 0 [.call ⟨.call, [2]⟩, .rvrt ⟨.revert, [3]⟩] = 1 ∧
+    (runSeq exH exSr exTmr {} [[.call ⟨.call, [2]⟩, .rvrt ⟨.revert, [3]⟩], [.ret ⟨.ret, [4]⟩]]).map kindsOf
+      = [[.call, .revert, .scriptResult], [.ret, .scriptResult]] := by decide
+
 example (l : List Rcpt) :
     (RCtx.push exH ⟨l, 65533, []⟩ ⟨.log, []⟩).toOption = none ∧ (RCtx.push exH ⟨l, 65533, []⟩ ⟨.panic, []⟩).toOption.isSome = true
     ∧ (RCtx.push exH ⟨l, 65532, []⟩ ⟨.log, []⟩).toOption.isSome = true := by
